@@ -152,6 +152,14 @@ pub fn drive_hashes_scaled(a: &Args, w: &Words, prefix: &str, budget: usize) {
         ev_hp(&mut sh, &mut rng, &data);
         bytes += data.len() + 1;
     }
+    // inputs past 2^16 bytes (one per class in rotation; three in the full run): a 16-bit position
+    // or index anywhere in the hashes would wrap here and nowhere below
+    for i in 0..(if budget > 1_000_000 { 3usize } else { 1 }) {
+        sh.next_unit();
+        let data = crate::gen::make_input(&mut rng, w, [0u64, 4, 1][i % 3], 65_536 + 700 + 13 * i);
+        ev_hp(&mut sh, &mut rng, &data);
+        bytes += data.len();
+    }
     // windows that stress the 32-bit arithmetic: all 0xff, alternating, words with extreme hashes
     for pat in [vec![255u8; 40], (0..40).map(|i| if i % 2 == 0 { 255 } else { 0 }).collect::<Vec<u8>>(), (0..64).map(|i| (i * 37 % 256) as u8).collect()] {
         sh.next_unit();
